@@ -201,6 +201,36 @@ pub fn run(r: &mut Report) {
         if let Err(p) = no_panic(|| { let _ = in_toto_verify(&lay, owner_keys(&[&owner]), d.path().to_str().unwrap(), None); }) { panics.push(format!("sub-layout without directory: {}", p)); }
     }
     r.case("fuzz-link-directory", json!({"inputs": n}), "no panic", format!("{:?}", panics), panics.is_empty());
+    // every shape of layout (no steps, inspections only, steps only, both; as root and as a delegated sub-layout): a verdict, no panic
+    {
+        let mut panics3: Vec<String> = vec![]; let mut n3 = 0;
+        let _g = crate::c08::CWD_LOCK.lock().unwrap();
+        for n_steps in 0..3usize { for n_insp in 0..3usize { for nested in [false, true] {
+            n3 += 1;
+            let d = tmpdir(); let work = tmpdir();
+            let insps: Vec<in_toto::models::inspection::Inspection> = (0..n_insp).map(|i| in_toto::models::inspection::Inspection::new(&format!("i{}", i)).run(cmd(&["true"])).expected_materials(allow_all()).expected_products(allow_all())).collect();
+            let names: Vec<String> = (0..n_steps).map(|i| format!("s{}", i)).collect();
+            let steps: Vec<in_toto::models::step::Step> = names.iter().map(|nm| step(nm, 1, &[&ka], allow_all(), allow_all())).collect();
+            let inner = layout(steps, insps, &[&ka], 30);
+            let top = if nested {
+                let sd = d.path().join(format!("a.{}", ka.key_id().prefix()));
+                std::fs::create_dir_all(&sd).unwrap();
+                for nm in &names { write_link(&sd, nm, ka.key_id(), &signed_link(&link(nm, &[], &[("x", 1)]), &[&ka])); }
+                write_link(d.path(), "a", ka.key_id(), &signed_layout(&inner, &[&ka]));
+                signed_layout(&layout(vec![step("a", 1, &[&ka], allow_all(), allow_all())], vec![], &[&ka], 30), &[&owner])
+            } else {
+                for nm in &names { write_link(d.path(), nm, ka.key_id(), &signed_link(&link(nm, &[], &[("x", 1)]), &[&ka])); }
+                signed_layout(&inner, &[&owner])
+            };
+            let old = std::env::current_dir().unwrap();
+            std::env::set_current_dir(work.path()).unwrap();
+            let res = no_panic(|| in_toto_verify(&top, owner_keys(&[&owner]), d.path().to_str().unwrap(), None).is_ok());
+            std::env::set_current_dir(old).unwrap();
+            match res { Ok(true) => {}, Ok(false) => { if panics3.len() < 5 { panics3.push(format!("steps={} inspections={} nested={}: a healthy layout was rejected", n_steps, n_insp, nested)); } }
+                        Err(p) => { if panics3.len() < 5 { panics3.push(format!("steps={} inspections={} nested={}: {}", n_steps, n_insp, nested, p)); } } }
+        } } }
+        r.case("every-layout-shape", json!({"inputs": n3}), "Ok from every healthy layout shape (no panic)", format!("{:?}", panics3), panics3.is_empty());
+    }
     // recorded commands shorter than, equal to, longer than and different from the expected command (the comparison only warns)
     {
         let mut n2 = 0; let mut panics2: Vec<String> = vec![];
